@@ -32,7 +32,15 @@
    delivered and fully consumed BEFORE the behaviour starts: 0 small, 1 larger than the default buffer, 2 several
    times larger; `cap` = capacity class now). A read that times out without data gives a grown buffer back ONLY IF
    IT IS EMPTY: capacity may change, content may not.
-     "ShrinkDropsBufferedBytes" the shrink after a timed-out read frees a buffer that still holds unconsumed bytes *)
+     "ShrinkDropsBufferedBytes" the shrink after a timed-out read frees a buffer that still holds unconsumed bytes
+   The Dispatch loop (stream/xprotocol/conn.go, stream/http2/stream.go, stream/http/stream.go Dispatch): ONE call per
+   read that brought bytes; nothing calls it again until the next read brings bytes. It therefore has to go round
+   until the buffer holds no complete unit any more - however many units one read made available. `handled` counts
+   the units the call in progress has extracted; the number of frames that become complete with one read (Burst) is
+   a dimension of the cases: 0, 1, a few, and MORE THAN ANY PER-CALL BOUND an implementation might have (in the model:
+   DispatchBound = 2, bursts of 3; the driver realises the class with several hundred / a thousand frames per read).
+     "BoundedFramesPerDispatch" a call handles at most DispatchBound units and returns although a complete frame is
+                                still buffered: that frame waits for bytes that may never come *)
 EXTENDS Integers, Sequences, FiniteSets, TLC, Json
 
 CONSTANTS MaxFrames,  \* frames per stream: 1..MaxFrames
@@ -42,6 +50,7 @@ CONSTANTS MaxFrames,  \* frames per stream: 1..MaxFrames
           Peek,       \* bytes the transport wrapper peeks off the wire before the first Read (0 | 1)
           MaxTimeouts,\* read deadlines that may expire during one behaviour
           Priors,     \* size classes of the frame consumed before the behaviour starts (buffer capacity history)
+          DispatchBound, \* units one Dispatch call handles under defect "BoundedFramesPerDispatch"
           Defects
 
 VARIABLES frames,  \* sequence of frame lengths: the input stream
@@ -55,29 +64,44 @@ VARIABLES frames,  \* sequence of frame lengths: the input stream
           pauses,  \* history: offsets (bytes sent so far) at which a read deadline expired
           prior,   \* size class of the frame that passed before (constant during a behaviour)
           cap,     \* capacity class of the read buffer: 0 = default size, > 0 = grown
-          cuts     \* history: offsets at which the stream was cut (for case emission)
-vars == <<frames, fed, cons, out, pc, pre, held, lost, pauses, prior, cap, cuts>>
+          cuts,    \* history: offsets at which the stream was cut (for case emission)
+          handled  \* units extracted by the Dispatch call in progress (0 while the read loop waits)
+vars == <<frames, fed, cons, out, pc, pre, held, lost, pauses, prior, cap, cuts, handled>>
 
-(* ---------------- stream geometry (shared with the trace spec) ---------------- *)
+(* ---------------- stream geometry (shared with the trace spec) ----------------
+   Predicates talk about END OFFSETS: es[k] = offset just behind frame k (strictly increasing). The model derives
+   them from the lengths (Ends); the trace spec has them recorded and checks them against the recorded lengths
+   (EndsOf) - nothing is trusted, and a stream of a thousand frames costs O(n) per judged step. *)
 RECURSIVE Off(_, _)
 Off(fs, k) == IF k = 0 THEN 0 ELSE fs[k] + Off(fs, k - 1)      \* end offset of frame k
 Total(fs) == Off(fs, Len(fs))
-Complete(fs, n) ==                                              \* number of frames wholly inside the first n bytes
-  LET ks == { k \in 0..Len(fs) : Off(fs, k) <= n } IN CHOOSE k \in ks : \A j \in ks : j <= k
-FrameAt(fs, pos) ==                                             \* frame starting at offset pos, 0 if none
-  LET is == { i \in 1..Len(fs) : Off(fs, i - 1) = pos } IN IF is = {} THEN 0 ELSE CHOOSE i \in is : TRUE
-Range(fs, i) == [start |-> Off(fs, i - 1), len |-> fs[i]]
+Ends(fs) == [k \in 1..Len(fs) |-> Off(fs, k)]
+EndsOf(fs, es) == /\ Len(es) = Len(fs)
+                  /\ \A k \in 1..Len(fs) : fs[k] >= 1 /\ es[k] = (IF k = 1 THEN 0 ELSE es[k - 1]) + fs[k]
+EndAt(es, k) == IF k = 0 THEN 0 ELSE es[k]
+Complete(es, n) == Cardinality({ k \in 1..Len(es) : es[k] <= n })  \* number of frames wholly inside the first n bytes
+\* the same number, computed from an earlier point of the same stream: k0 = Complete(es, n0), n0 <= n; every frame has
+\* at least one byte, so at most n - n0 further frames can have become complete (the trace spec's O(chunk) form;
+\* its agreement with the definition is an invariant of the model: CompleteFromAgrees)
+CompleteFrom(es, k0, n0, n) ==
+  LET hi == IF k0 + (n - n0) < Len(es) THEN k0 + (n - n0) ELSE Len(es)
+  IN k0 + Cardinality({ k \in (k0 + 1)..hi : es[k] <= n })
+FrameAt(es, pos) ==                                             \* frame starting at offset pos, 0 if none
+  LET is == { i \in 1..Len(es) : EndAt(es, i - 1) = pos } IN IF is = {} THEN 0 ELSE CHOOSE i \in is : TRUE
+Range(es, i) == [start |-> EndAt(es, i - 1), len |-> es[i] - EndAt(es, i - 1)]
 
-(* ---------------- what C07 demands, as predicates on (frames, fed, cons, out) ---------------- *)
+(* ---------------- what C07 demands, as predicates on (end offsets, fed, cons, out) ---------------- *)
 \* the frames come out in order, each exactly once, with exactly their own bytes
-InOrderOnceOK(fs, o) == /\ Len(o) <= Len(fs)
-                        /\ \A i \in 1..Len(o) : o[i] = Range(fs, i)
+\* (general form: `o` is what came out behind the first `base` frames, which came out as they should)
+InOrderOnceFromOK(es, base, o) == /\ base + Len(o) <= Len(es)
+                                  /\ \A i \in 1..Len(o) : o[i] = Range(es, base + i)
+InOrderOnceOK(es, o) == InOrderOnceFromOK(es, 0, o)
 \* nothing is handed over before its last byte arrived
-NoEarlyOK(fs, f, o)  == Len(o) <= Complete(fs, f)
+NoEarlyOK(es, f, o)  == Len(o) <= Complete(es, f)
 \* when Dispatch returns every complete frame has been handed over
-PromptOK(fs, f, o)   == Len(o) = Complete(fs, f)
+PromptOK(es, f, o)   == Len(o) = Complete(es, f)
 \* an incomplete frame consumes nothing; complete frames are consumed entirely
-ConsumedOK(us, f, c) == c = Off(us, Complete(us, f))
+ConsumedOK(us, f, c) == c = EndAt(us, Complete(us, f))
 
 (* ---------------- behaviour ---------------- *)
 Init == /\ \E n \in 1..MaxFrames : frames \in [1..n -> Lens]
@@ -85,17 +109,21 @@ Init == /\ \E n \in 1..MaxFrames : frames \in [1..n -> Lens]
         /\ pre = IF Preface > 0 THEN "pending" ELSE "done"
         /\ held = 0 /\ lost = 0 /\ pauses = <<>>
         /\ prior \in Priors /\ cap = prior
+        /\ handled = 0
 
+E == Ends(frames)                                        \* end offsets of the frames of this behaviour
 Sent == fed + held + lost                                 \* bytes the peer has written so far
 StreamLen == Preface + Total(frames)
 FFed  == IF fed > Preface THEN fed - Preface ELSE 0      \* bytes of the frame part read so far
 FCons == cons - Preface                                  \* bytes of the frame part drained so far
 
+(* one read that brings bytes is followed by ONE Dispatch call *)
 Feed(n) == /\ pc = "read" /\ Sent + n <= StreamLen
            /\ cuts' = Append(cuts, Sent + n)
            /\ IF Peek = 1 /\ Sent = 0 /\ n = 1
               THEN /\ held' = 1 /\ fed' = fed /\ pc' = "read"     \* peeked; the first Read waits for more
               ELSE /\ fed' = fed + held + n /\ held' = 0 /\ pc' = "dispatch"
+           /\ handled' = 0
            /\ UNCHANGED <<frames, cons, out, pre, lost, pauses, prior, cap>>
 
 (* the read deadline expires while the read loop waits for the peer *)
@@ -110,7 +138,7 @@ Timeout == /\ pc = "read" /\ Len(pauses) < MaxTimeouts /\ Sent < StreamLen
                       THEN fed' = fed /\ lost' = lost + held
                       ELSE fed' = fed + held /\ lost' = lost
                    /\ UNCHANGED <<cons, cap>>
-              ELSE \* nothing read: the read loop may give a grown buffer back
+              ELSE \* nothing read: the read loop may give a grown buffer back - and does NOT call Dispatch
                    /\ fed' = fed
                    /\ IF cap > 0 /\ Buffered = 0
                       THEN cap' = 0 /\ UNCHANGED <<cons, lost>>                       \* legitimate shrink
@@ -119,43 +147,63 @@ Timeout == /\ pc = "read" /\ Len(pauses) < MaxTimeouts /\ Sent < StreamLen
                       ELSE UNCHANGED <<cons, lost, cap>>
            /\ held' = 0
            /\ pc' = IF fed' > fed THEN "dispatch" ELSE "read"
+           /\ handled' = 0
            /\ UNCHANGED <<frames, out, pre, prior, cuts>>
 
+(* One round of the Dispatch loop. The call returns (pc' = "read") ONLY when the buffer is empty or its head is an
+   incomplete unit; every other round extracts one unit and goes round again, without any bound on the rounds. *)
 Decode == /\ pc = "dispatch"
-          /\ LET i == IF lost > 0 THEN 0 ELSE FrameAt(frames, FCons) IN   \* after a loss the buffer is not the stream
-             IF Buffered <= 0 THEN                         \* buffer empty: Dispatch returns
-                  pc' = "read" /\ UNCHANGED <<cons, out, pre>>
+          /\ LET i == IF lost > 0 THEN 0 ELSE FrameAt(E, FCons) IN   \* after a loss the buffer is not the stream
+             IF "BoundedFramesPerDispatch" \in Defects /\ handled >= DispatchBound THEN
+                  \* "enough work for one read event": the call returns whatever is still buffered
+                  pc' = "read" /\ handled' = 0 /\ UNCHANGED <<cons, out, pre>>
+             ELSE IF Buffered <= 0 THEN                    \* buffer empty: Dispatch returns
+                  pc' = "read" /\ handled' = 0 /\ UNCHANGED <<cons, out, pre>>
              ELSE IF pre = "pending" THEN
                   IF Buffered < Preface THEN               \* need more: nothing consumed, no state changed
-                       /\ pc' = "read" /\ UNCHANGED <<cons, out>>
+                       /\ pc' = "read" /\ handled' = 0 /\ UNCHANGED <<cons, out>>
                        /\ pre' = IF "PrefaceFlagEarly" \in Defects THEN "done" ELSE "pending"
                   ELSE /\ cons' = cons + Preface /\ pre' = "done" /\ pc' = "dispatch" /\ out' = out
+                       /\ handled' = handled + 1
              ELSE IF i = 0 THEN                            \* decoder looks at bytes that are no frame start
-                  pc' = "error" /\ UNCHANGED <<cons, out, pre>>
+                  pc' = "error" /\ UNCHANGED <<cons, out, pre, handled>>
              ELSE LET L == frames[i]
                       need == IF "OffByOne" \in Defects THEN L - 1 ELSE L
                   IN IF Buffered < H \/ Buffered < need THEN    \* need more data
-                          /\ pc' = "read" /\ out' = out /\ pre' = pre
+                          /\ pc' = "read" /\ handled' = 0 /\ out' = out /\ pre' = pre
                           /\ cons' = IF "ConsumePartial" \in Defects THEN fed ELSE cons
                      ELSE /\ out' = Append(out, [start |-> FCons, len |-> L])
                           /\ cons' = cons + (IF "DrainHeader" \in Defects THEN H ELSE L)
                           /\ pc' = "dispatch" /\ pre' = pre
+                          /\ handled' = handled + 1
           /\ UNCHANGED <<frames, fed, cuts, held, lost, pauses, prior, cap>>
 
 Next == Decode \/ Timeout \/ \E n \in 1..StreamLen : Feed(n)
 Spec == Init /\ [][Next]_vars
 
 (* ---------------- properties ---------------- *)
-InOrderOnce == InOrderOnceOK(frames, out)
-NoEarly     == NoEarlyOK(frames, FFed, out)
-Prompt      == pc = "read" => PromptOK(frames, FFed, out)
-Consumed    == pc = "read" => IF fed < Preface THEN cons = 0 ELSE ConsumedOK(frames, FFed, FCons)
+InOrderOnce == InOrderOnceOK(E, out)
+NoEarly     == NoEarlyOK(E, FFed, out)
+Prompt      == pc = "read" => PromptOK(E, FFed, out)
+Consumed    == pc = "read" => IF fed < Preface THEN cons = 0 ELSE ConsumedOK(E, FFed, FCons)
 PrefaceOnce == (pre = "pending" => cons = 0 /\ out = <<>>) /\ (pre = "done" => cons >= Preface)
 NoError     == pc # "error"
 NoByteLost  == lost = 0 /\ held <= Peek /\ lost + fed + held <= StreamLen
+\* the contract of the Dispatch loop, stated on the buffer: when the call has returned, the head of the buffer is
+\* not a complete unit (nothing calls Dispatch again before new bytes arrive, and they may never arrive)
+LoopUntilDry == (pc = "read" /\ lost = 0 /\ pre = "done") =>
+                   LET i == FrameAt(E, FCons) IN i = 0 \/ Buffered < frames[i]
+\* (the incremental count used by the trace specification is the count)
+CompleteFromAgrees == \A n0 \in 0..FFed : CompleteFrom(E, Complete(E, n0), n0, FFed) = Complete(E, FFed)
 \* segmentation independence: at the end of the stream the output is the input, whatever the cuts were
-SameForEveryCut == (pc = "read" /\ fed = StreamLen) => out = [i \in 1..Len(frames) |-> Range(frames, i)]
+SameForEveryCut == (pc = "read" /\ fed = StreamLen) => out = [i \in 1..Len(frames) |-> Range(E, i)]
+
+(* Burst: the largest number of frames that became complete with ONE read of this behaviour (a case dimension) *)
+FrOff(c) == IF c > Preface THEN c - Preface ELSE 0
+PerRead(j) == Complete(E, FrOff(cuts[j])) - Complete(E, FrOff(IF j = 1 THEN 0 ELSE cuts[j - 1]))
+Burst == IF cuts = <<>> THEN 0
+         ELSE LET bs == { PerRead(j) : j \in 1..Len(cuts) } IN CHOOSE b \in bs : \A x \in bs : x <= b
 
 (* one CASE per complete chunking of a frame vector *)
-EmitCase == (pc = "read" /\ fed = StreamLen) => PrintT(<<"CASE", ToJson([frames |-> frames, cuts |-> cuts, pre |-> Preface, pauses |-> pauses, prior |-> prior])>>)
+EmitCase == (pc = "read" /\ fed = StreamLen) => PrintT(<<"CASE", ToJson([frames |-> frames, cuts |-> cuts, pre |-> Preface, pauses |-> pauses, prior |-> prior, burst |-> Burst])>>)
 ====
